@@ -1,4 +1,5 @@
 import CnbVerif.Lemmas.Written
+import CnbVerif.Lemmas.BuilderSeq
 import CnbVerif.Spec.CnbSchemas
 /-!
 # C07 — written TOML decodes under an independent reader to the intended spec document
@@ -57,6 +58,13 @@ arrays and tables nested to any depth) are carried verbatim. -/
 theorem require_metadata_partial (name : String) (t : Table) (h : noDtKVs t = true) : requireWithMetadata name t = ⟨name, t⟩ := by
   simp only [requireWithMetadata, privDtKVs_of_noDt t h]
 
+/-- **M2c, repeated `metadata` calls, partial (tables without a datetime):** `Require::new(name)` followed by any number
+of `metadata(..)` calls carries the table given last; without a call (also `requires("name")`) the empty table. -/
+theorem require_metadata_calls_partial (name : String) (tables : List Table) (h : ∀ t ∈ tables, noDtKVs t = true) :
+    requireSeq name tables = intendedRequire name tables := by
+  unfold requireSeq intendedRequire
+  rw [requireSeq_fold, map_privDtKVs_of_noDt tables h]
+
 /-- The finding that keeps `FullStatementRequireMetadata` from holding (reproduced on the real builder). -/
 theorem require_metadata_datetime_counterexample :
     requireWithMetadata "x" [("when", .dt "1979-05-27")] = ⟨"x", [("when", .tbl [("$__toml_private_datetime", .str "1979-05-27")])]⟩ ∧
@@ -69,6 +77,61 @@ theorem require_metadata_datetime_counterexample :
 `ProcessBuilder` keeps type and command, concatenates all `arg`/`args` in call order, and takes the last `default` and
 the last `working_directory` (else `false` / the app directory). -/
 theorem launch_builder_calls (ops : List LaunchOp) : buildLaunch ops = intendedLaunch (ops.map toLCall) := buildLaunch_eq ops
+
+/-- **M2e (`build()` anywhere, ProcessBuilder).** `ProcessBuilder` is non-consuming: for every call sequence with any
+number of `build()` calls at any positions (and the one at the end), the processes built are, in order, the intended
+process of **all** calls made before the respective `build()` — a `build()` in between changes nothing. -/
+theorem process_builder_every_build (t : String) (c : List String) (ops : List (SeqOp ProcOp)) :
+    procSession t c ops = intendedBuilds (intendedProc t c) (ops.map (toStep toPCall) ++ [Step.build]) := procSession_eq t c ops
+
+/-- **M2f (`build()` anywhere, LaunchBuilder).** For every call sequence over the whole surface of `LaunchBuilder`
+(`process` fed from a `ProcessBuilder` with its own intermediate `build()`s, `processes`, `label`, `labels`, `slice`,
+`slices`) with any number of `build()` calls at any positions and the one at the end, the list of `Launch` values built
+is the specification's: one per `build()`, each the value of all calls made before it. -/
+theorem launch_builder_every_build (ops : List (SeqOp LaunchOpX)) :
+    launchSession ops = intendedLaunchDocs (ops.map (toStep toLCallX)) := launchSession_eq ops
+
+/-- **M2f, history form.** Split the sequence (with its final `build()`) anywhere before a `build()`: that `build()` — the
+`buildsIn pre`-th — returns what the configuring calls of the whole prefix `pre` are meant to construct, however many
+`build()`s `pre` itself holds. In particular what was added before an earlier `build()` is in every later one. -/
+theorem launch_build_returns_everything_added_so_far (ops pre post : List (SeqOp LaunchOpX))
+    (h : ops ++ [SeqOp.build] = pre ++ SeqOp.build :: post) :
+    (launchSession ops)[buildsIn pre]? = some (intendedLaunchX ((callsOf pre).map toLCallX)) := by
+  unfold launchSession
+  rw [h, runSeq_prefix, launchX_eq]
+
+/-- **M2f, later builds contain earlier content.** Of two `build()`s of one `LaunchBuilder`, the later one returns the
+labels, processes and slices of the earlier one, in the same order, followed by what was added in between; with nothing
+added in between (`build()` twice in a row, or only `build()`s in between) the two values are equal. -/
+theorem launch_later_build_extends_earlier (pre mid post : List (SeqOp LaunchOpX)) :
+    ∃ a b, (launchSession (pre ++ SeqOp.build :: (mid ++ SeqOp.build :: post)))[buildsIn pre]? = some a ∧
+      (launchSession (pre ++ SeqOp.build :: (mid ++ SeqOp.build :: post)))[buildsIn pre + 1 + buildsIn mid]? = some b ∧
+      (∃ ls ps ss, b = ⟨a.labels ++ ls, a.processes ++ ps, a.slices ++ ss⟩) ∧ (callsOf mid = [] → b = a) := by
+  refine ⟨(callsOf pre).foldl launchStepX ⟨[], [], []⟩, (callsOf pre ++ callsOf mid).foldl launchStepX ⟨[], [], []⟩, ?_, ?_, ?_, ?_⟩
+  · unfold launchSession
+    rw [List.append_assoc, List.cons_append, runSeq_prefix]
+  · unfold launchSession
+    have e : (pre ++ SeqOp.build :: (mid ++ SeqOp.build :: post)) ++ [SeqOp.build] =
+        (pre ++ SeqOp.build :: mid) ++ SeqOp.build :: (post ++ [SeqOp.build]) := by simp
+    have hb : buildsIn pre + 1 + buildsIn mid = buildsIn (pre ++ SeqOp.build :: mid) := by
+      simp [buildsIn_append, buildsIn]; omega
+    have hc : callsOf (pre ++ SeqOp.build :: mid) = callsOf pre ++ callsOf mid := by simp [callsOf_append, callsOf]
+    rw [e, hb, runSeq_prefix, hc]
+  · exact launch_extends (callsOf pre) (callsOf mid)
+  · intro hm; rw [hm, List.append_nil]
+
+/-- **M1 for every launch.toml of a builder.** Every `Launch` a `LaunchBuilder` hands out — at an intermediate `build()`
+or at the last — is written as a tree that the specification's reader decodes to the value intended at that `build()`,
+and libcnb's own reader to the value built. -/
+theorem launch_every_built_document_decodes_to_constructed (ops : List (SeqOp LaunchOpX)) (i : Nat) (d : Launch)
+    (hd : (launchSession ops)[i]? = some d) (hty : ∀ p ∈ d.processes, StrV.processType.valid p.type = true) :
+    ∃ t, encode Gen.S.Launch d.toVal = some t ∧
+      (∃ s, (intendedLaunchDocs (ops.map (toStep toLCallX)))[i]? = some s ∧ decode Spec.Cnb.launchToml t = .ok s.toVal) ∧
+      decode Gen.S.Launch t = .ok d.toVal := by
+  obtain ⟨t, h1, h2⟩ := roundtrip Gen.S.Launch Spec.Cnb.launchToml _ (by decide) (hasType_launch d hty)
+  obtain ⟨t', h1', h2'⟩ := roundtrip Gen.S.Launch Gen.S.Launch _ (by decide) (hasType_launch d hty)
+  rw [h1] at h1'; cases h1'
+  exact ⟨t, h1, ⟨d, by rw [← launchSession_eq]; exact hd, h2⟩, h2'⟩
 
 /-- **M1 for launch.toml.** For every call sequence (process types valid, as `ProcessType` guarantees) the tree libcnb
 writes for the built `Launch` is decoded by the specification's reader to exactly the processes (type, command, args,
@@ -160,5 +223,16 @@ example : (match encode Gen.S.Launch (buildLaunch [.process "web" ["x"] [], .pro
     | none => false) = true := by rfl
 
 example : writtenDocs.length = 16 := by decide
+
+/-- process(web), build(), process(worker) from a `ProcessBuilder` built twice, labels(..), build(), build(): the first
+document holds web only, the later ones web first and everything added since; the last two are equal -/
+example : launchSession [.call (.session "web" ["x"] []), .build,
+      .call (.session "worker" ["y"] [.call (.arg "1"), .build, .call (.arg "2")]), .call (.labels [("k", "v")]), .build] =
+    [⟨[], [⟨"web", ["x"], [], false, none⟩], []⟩,
+     ⟨[("k", "v")], [⟨"web", ["x"], [], false, none⟩, ⟨"worker", ["y"], ["1"], false, none⟩, ⟨"worker", ["y"], ["1", "2"], false, none⟩], []⟩,
+     ⟨[("k", "v")], [⟨"web", ["x"], [], false, none⟩, ⟨"worker", ["y"], ["1"], false, none⟩, ⟨"worker", ["y"], ["1", "2"], false, none⟩], []⟩] := by rfl
+
+/-- `build()` first: the empty launch configuration -/
+example : launchSession [.build, .call (.slice ["a"])] = [⟨[], [], []⟩, ⟨[], [], [["a"]]⟩] := by rfl
 
 end CnbVerif.C07
